@@ -681,7 +681,7 @@ func Gen(t *rapid.T, tier string) any {
 	}
 	if tier == "thorough" {
 		sc.Exhaustive = true
-		sc.DigestEvery = 4096
+		sc.DigestEvery = 512
 		return sc
 	}
 	if rapid.IntRange(0, 5).Draw(t, "single_route") == 0 {
